@@ -353,7 +353,32 @@ def conf_dict(c):
                      'peer_auth': {'id': 'b@x', 'psk': 'k'}, 'protect': entries}}
 
 
+class OpHangs(BaseException):
+    pass
+
+
+def _op_hangs(*_):
+    raise OpHangs()
+
+
 def call_api(c):
+    """one call of the library's XFRM API under a CPU bound (a request is built and its reply read in microseconds; a call
+    that uses 2 s of CPU does not come back)"""
+    signal.signal(signal.SIGVTALRM, _op_hangs)
+    signal.setitimer(signal.ITIMER_VIRTUAL, 2.0)
+    try:
+        return _call_api(c)
+    except OpHangs:
+        raise HangError('the call did not return within 2 s of CPU time')
+    finally:
+        signal.setitimer(signal.ITIMER_VIRTUAL, 0)
+
+
+class HangError(Exception):
+    pass
+
+
+def _call_api(c):
     X = xfrm.Xfrm
     api = c['api']
     if api == 'create_sa':
@@ -882,14 +907,6 @@ def run_event_unit(unit):
 ERRNOS_QUICK = [1, 2, 3, 11, 12, 13, 16, 17, 22, 28, 38, 90, 93, 95, 97, 105, 132, 133]
 
 
-class OpHangs(BaseException):
-    pass
-
-
-def _op_hangs(*_):
-    raise OpHangs()
-
-
 def reply_ops():
     sa = dict(api='create_sa', **sel_base({}), tunnel=TUNNELS[0], mode=1, lifetime=300, spi=SPIS[1], alg=ALGS[5])
     sa6 = dict(api='create_sa', **sel_base({'ssel': NETS[6, 's'][64]}), tunnel=TUNNELS[2], mode=0, lifetime=-1,
@@ -920,8 +937,15 @@ def reply_cases(quick):
 
 def call_op(op):
     if op['api'] == 'send_recv':
-        return xfrm.Xfrm.send_recv(KC['XFRM_MSG_FLUSHSA'], KC['NLM_F_REQUEST'] | KC['NLM_F_ACK'],
-                                   xfrm.XfrmUserSaFlush(proto=0))
+        signal.signal(signal.SIGVTALRM, _op_hangs)
+        signal.setitimer(signal.ITIMER_VIRTUAL, 2.0)
+        try:
+            return xfrm.Xfrm.send_recv(KC['XFRM_MSG_FLUSHSA'], KC['NLM_F_REQUEST'] | KC['NLM_F_ACK'],
+                                       xfrm.XfrmUserSaFlush(proto=0))
+        except OpHangs:
+            raise HangError('the call did not return within 2 s of CPU time')
+        finally:
+            signal.setitimer(signal.ITIMER_VIRTUAL, 0)
     return call_api(op)
 
 
@@ -998,18 +1022,14 @@ def run_reply_unit(unit):
                 res['digests'].add(hashlib.sha1(frame).digest()[:8])
             del handler.records[:]
             outcome = 'ok'
-            signal.signal(signal.SIGVTALRM, _op_hangs)
-            signal.setitimer(signal.ITIMER_VIRTUAL, 2.0)     # a reply is read in microseconds; 2 s of CPU is a hang
             try:
                 call_op(op)
             except netlink.NetlinkError:
                 outcome = 'NetlinkError'
-            except OpHangs:
+            except HangError:
                 outcome = 'hangs'
             except Exception as ex:   # noqa
                 outcome = 'exception:' + type(ex).__name__
-            finally:
-                signal.setitimer(signal.ITIMER_VIRTUAL, 0)
             warned = any(lv >= logging.WARNING for lv in handler.records)
             if errno == 0:
                 good = outcome == 'ok'
